@@ -423,10 +423,12 @@ func Serve(opts Options) error {
 		if ln != nil {
 			ln.Close()
 		}
+		s.mu.RLock()
 		for conn, f := range s.aofconnM {
 			conn.Close()
 			f.Close()
 		}
+		s.mu.RUnlock()
 	}()
 
 	// Load the queue before the aof
